@@ -121,6 +121,18 @@ func (vc *VC) call(fr *Frame, st *State, instr *ssa.Call, c *ssa.CallCommon) {
 	fn, mc := vc.resolveStatic(fr, c)
 	if fn == nil {
 		// call through a function value: a function-typed struct field may carry a contract
+		if u, ok := c.Value.(*ssa.UnOp); ok && u.Op == token.MUL {
+			if g, ok := u.X.(*ssa.Global); ok && g.Pkg != nil {
+				key := g.Pkg.Pkg.Path() + "." + g.Name()
+				if con := vc.eng.contractsByKey[key]; con != nil {
+					vc.dynSig = sig
+					rs := vc.applyContract(fr, st, con, nil, nil, append([]Term{NilP}, args...), types.Typ[types.UntypedNil], pos)
+					vc.setResults(fr, instr, rs)
+					vc.assumed["function-typed package variable "+key+" is assumed to hold a function satisfying its contract"] = true
+					return
+				}
+			}
+		}
 		if key, base, ok := vc.funcFieldKey(c.Value); ok {
 			if con := vc.eng.contractsByKey[key]; con != nil {
 				vc.dynSig = sig
